@@ -282,6 +282,9 @@ def getBH_level2(
     reset_obj = [obj for obj, mask in zip(obj_list, mask_reset) if mask]
     reset_obj_m0 = [pl for pl, mask in zip(path_lengths, mask_reset) if mask]
 
+    # remember the untiled paths so that they can be restored exactly, also on failure
+    reset_obj_orig = [(obj._position, obj._orientation) for obj in reset_obj]
+
     if max_path_len > 1:
         for obj, m0 in zip(reset_obj, reset_obj_m0):
             # length to be tiled
@@ -295,117 +298,119 @@ def getBH_level2(
             tile_orient = np.concatenate((obj._orientation.as_quat(), tile_orient))
             obj._orientation = R.from_quat(tile_orient)
 
-    # combine information form all sensors to generate pos_obs with-------------
-    #   shape (m * concat all sens flat pixel, 3)
-    #   allows sensors with different pixel shapes <- relevant?
-    poso = [
-        [
-            (
-                np.array([[0, 0, 0]])
-                if sens.pixel is None
-                else r.apply(sens.pixel.reshape(-1, 3))
-            )
-            + p
-            for r, p in zip(sens._orientation, sens._position)
-        ]
-        for sens in sensors
-    ]
-    poso = np.concatenate(poso, axis=1).reshape(-1, 3)
-    n_pp = len(poso)
-    n_pix = int(n_pp / max_path_len)
-
-    # group similar source types----------------------------------------------
-    field_func_groups = {}
-    for ind, src in enumerate(src_list):
-        group_key = src.field_func
-        if group_key is None:
-            raise MagpylibMissingInput(
-                f"Cannot compute {field}-field because "
-                f"`field_func` of {src} has undefined {field}-field computation."
-            )
-        if group_key not in field_func_groups:
-            field_func_groups[group_key] = {
-                "sources": [],
-                "order": [],
-            }
-        field_func_groups[group_key]["sources"].append(src)
-        field_func_groups[group_key]["order"].append(ind)
-
-    # evaluate each group in one vectorized step -------------------------------
-    B = np.empty((num_of_src_list, max_path_len, n_pix, 3))  # allocate B
-    for field_func, group in field_func_groups.items():
-        lg = len(group["sources"])
-        gr = group["sources"]
-        src_dict = get_src_dict(gr, n_pix, n_pp, poso)  # compute array dict for level1
-        # compute field
-        B_group = getBH_level1(
-            field_func=field_func, field=field, in_out=in_out, **src_dict
-        )
-        if B_group is None:
-            raise MagpylibMissingInput(
-                f"Cannot compute {field}-field because "
-                f"`field_func` {field_func} has undefined {field}-field computation."
-            )
-        B_group = B_group.reshape(
-            (lg, max_path_len, n_pix, 3)
-        )  # reshape (2% slower for large arrays)
-        for gr_ind in range(lg):  # put into dedicated positions in B
-            B[group["order"][gr_ind]] = B_group[gr_ind]
-
-    # reshape output ----------------------------------------------------------------
-    # rearrange B when there is at least one Collection with more than one source
-    if num_of_src_list > num_of_sources:
-        for src_ind, src in enumerate(sources):
-            if isinstance(src, Collection):
-                col_len = len(format_obj_input(src, allow="sources"))
-                # set B[i] to sum of slice
-                B[src_ind] = np.sum(B[src_ind : src_ind + col_len], axis=0)
-                B = np.delete(
-                    B, np.s_[src_ind + 1 : src_ind + col_len], 0
-                )  # delete remaining part of slice
-
-    # apply sensor rotations (after summation over collections to reduce rot.apply operations)
-    for sens_ind, sens in enumerate(sensors):  # cycle through all sensors
-        pix_slice = slice(pix_inds[sens_ind], pix_inds[sens_ind + 1])
-        if not unrotated_sensors[sens_ind]:  # apply operations only to rotated sensors
-            # select part where rot is applied
-            Bpart = B[:, :, pix_slice]
-            # change shape to (P,3) for rot package
-            Bpart_orig_shape = Bpart.shape
-            Bpart_flat = np.reshape(Bpart, (-1, 3))
-            # apply sensor rotation
-            if static_sensor_rot[sens_ind]:  # special case: same rotation along path
-                sens_orient = sens._orientation[0]
-            else:
-                sens_orient = R.from_quat(
-                    np.tile(  # tile for each source from list
-                        np.repeat(  # same orientation path index for all indices
-                            sens._orientation.as_quat(), pix_nums[sens_ind], axis=0
-                        ),
-                        (num_of_sources, 1),
-                    )
+    try:
+        # combine information form all sensors to generate pos_obs with-------------
+        #   shape (m * concat all sens flat pixel, 3)
+        #   allows sensors with different pixel shapes <- relevant?
+        poso = [
+            [
+                (
+                    np.array([[0, 0, 0]])
+                    if sens.pixel is None
+                    else r.apply(sens.pixel.reshape(-1, 3))
                 )
-            Bpart_flat_rot = sens_orient.inv().apply(Bpart_flat)
-            # overwrite Bpart in B
-            B[:, :, pix_slice] = np.reshape(Bpart_flat_rot, Bpart_orig_shape)
-        if sens.handedness == "left":
-            B[..., pix_slice, 0] *= -1
+                + p
+                for r, p in zip(sens._orientation, sens._position)
+            ]
+            for sens in sensors
+        ]
+        poso = np.concatenate(poso, axis=1).reshape(-1, 3)
+        n_pp = len(poso)
+        n_pix = int(n_pp / max_path_len)
 
-    # rearrange sensor-pixel shape
-    if pix_all_same:
-        B = B.reshape((num_of_sources, max_path_len, num_of_sensors, *pix_shapes[0]))
-        # aggregate pixel values
-        if pixel_agg is not None:
-            B = pixel_agg_func(B, axis=tuple(range(3 - B.ndim, -1)))
-    else:  # pixel_agg is not None when pix_all_same, checked with
-        Bsplit = np.split(B, pix_inds[1:-1], axis=2)
-        Bagg = [np.expand_dims(pixel_agg_func(b, axis=2), axis=2) for b in Bsplit]
-        B = np.concatenate(Bagg, axis=2)
+        # group similar source types----------------------------------------------
+        field_func_groups = {}
+        for ind, src in enumerate(src_list):
+            group_key = src.field_func
+            if group_key is None:
+                raise MagpylibMissingInput(
+                    f"Cannot compute {field}-field because "
+                    f"`field_func` of {src} has undefined {field}-field computation."
+                )
+            if group_key not in field_func_groups:
+                field_func_groups[group_key] = {
+                    "sources": [],
+                    "order": [],
+                }
+            field_func_groups[group_key]["sources"].append(src)
+            field_func_groups[group_key]["order"].append(ind)
 
-    # reset tiled objects
-    for obj, m0 in zip(reset_obj, reset_obj_m0):
-        obj._position = obj._position[:m0]
-        obj._orientation = obj._orientation[:m0]
+        # evaluate each group in one vectorized step -------------------------------
+        B = np.empty((num_of_src_list, max_path_len, n_pix, 3))  # allocate B
+        for field_func, group in field_func_groups.items():
+            lg = len(group["sources"])
+            gr = group["sources"]
+            src_dict = get_src_dict(gr, n_pix, n_pp, poso)  # compute array dict for level1
+            # compute field
+            B_group = getBH_level1(
+                field_func=field_func, field=field, in_out=in_out, **src_dict
+            )
+            if B_group is None:
+                raise MagpylibMissingInput(
+                    f"Cannot compute {field}-field because "
+                    f"`field_func` {field_func} has undefined {field}-field computation."
+                )
+            B_group = B_group.reshape(
+                (lg, max_path_len, n_pix, 3)
+            )  # reshape (2% slower for large arrays)
+            for gr_ind in range(lg):  # put into dedicated positions in B
+                B[group["order"][gr_ind]] = B_group[gr_ind]
+
+        # reshape output ----------------------------------------------------------------
+        # rearrange B when there is at least one Collection with more than one source
+        if num_of_src_list > num_of_sources:
+            for src_ind, src in enumerate(sources):
+                if isinstance(src, Collection):
+                    col_len = len(format_obj_input(src, allow="sources"))
+                    # set B[i] to sum of slice
+                    B[src_ind] = np.sum(B[src_ind : src_ind + col_len], axis=0)
+                    B = np.delete(
+                        B, np.s_[src_ind + 1 : src_ind + col_len], 0
+                    )  # delete remaining part of slice
+
+        # apply sensor rotations (after summation over collections to reduce rot.apply operations)
+        for sens_ind, sens in enumerate(sensors):  # cycle through all sensors
+            pix_slice = slice(pix_inds[sens_ind], pix_inds[sens_ind + 1])
+            if not unrotated_sensors[sens_ind]:  # apply operations only to rotated sensors
+                # select part where rot is applied
+                Bpart = B[:, :, pix_slice]
+                # change shape to (P,3) for rot package
+                Bpart_orig_shape = Bpart.shape
+                Bpart_flat = np.reshape(Bpart, (-1, 3))
+                # apply sensor rotation
+                if static_sensor_rot[sens_ind]:  # special case: same rotation along path
+                    sens_orient = sens._orientation[0]
+                else:
+                    sens_orient = R.from_quat(
+                        np.tile(  # tile for each source from list
+                            np.repeat(  # same orientation path index for all indices
+                                sens._orientation.as_quat(), pix_nums[sens_ind], axis=0
+                            ),
+                            (num_of_sources, 1),
+                        )
+                    )
+                Bpart_flat_rot = sens_orient.inv().apply(Bpart_flat)
+                # overwrite Bpart in B
+                B[:, :, pix_slice] = np.reshape(Bpart_flat_rot, Bpart_orig_shape)
+            if sens.handedness == "left":
+                B[..., pix_slice, 0] *= -1
+
+        # rearrange sensor-pixel shape
+        if pix_all_same:
+            B = B.reshape((num_of_sources, max_path_len, num_of_sensors, *pix_shapes[0]))
+            # aggregate pixel values
+            if pixel_agg is not None:
+                B = pixel_agg_func(B, axis=tuple(range(3 - B.ndim, -1)))
+        else:  # pixel_agg is not None when pix_all_same, checked with
+            Bsplit = np.split(B, pix_inds[1:-1], axis=2)
+            Bagg = [np.expand_dims(pixel_agg_func(b, axis=2), axis=2) for b in Bsplit]
+            B = np.concatenate(Bagg, axis=2)
+
+    finally:
+        # reset tiled objects
+        for obj, (pos0, ori0) in zip(reset_obj, reset_obj_orig):
+            obj._position = pos0
+            obj._orientation = ori0
 
     # sumup over sources
     if sumup:
